@@ -50,7 +50,12 @@ func (f *DelayFilter) Run(ctx context.Context) { //nolint:cyclop
 		case <-ctx.Done():
 			return
 		case <-f.push:
-			next := f.queue.peek().(timedChunk) //nolint:forcetypeassert
+			next, ok := f.queue.peek().(timedChunk)
+			if !ok {
+				// The timer branch has already forwarded the chunk that this
+				// notification announced; the timer is armed for whatever is left.
+				continue
+			}
 			if !timer.Stop() {
 				<-timer.C
 			}
